@@ -10,6 +10,15 @@ A crash in the middle of a write is produced on the disk: the callback runs, the
 `size before + off` bytes, files created after the write (a rotation) are removed, and the handler object is dropped.
 """
 import json
+
+
+def _no_constant(name):
+    raise ValueError('%s is not JSON' % name)
+
+
+def strict_loads(text):
+    """JSON as RFC 8259 defines it: the tokens Infinity, -Infinity and NaN (which Python's decoder accepts) are refused"""
+    return json.loads(text, parse_constant=_no_constant)
 import logging
 import os
 import shutil
@@ -258,7 +267,7 @@ def model_crash(cb, msg, clock_n, off, write_keepalive=True):
 def classify_line(line):
     """[seq, type, bytes] for one complete record with exactly the documented keys, {"junk": bytes} otherwise"""
     try:
-        v = json.loads(line.decode())
+        v = strict_loads(line.decode())
     except Exception:  # noqa
         return {'junk': len(line)}
     if isinstance(v, dict) and sorted(v) == ['msg', 'seq', 't', 'type'] and isinstance(v['seq'], int) \
